@@ -1,6 +1,7 @@
 """C09 Single-block AES-128 equals FIPS-197 for every key/block; decryption inverts it."""
 from . import aes_rules
 LEVEL = 'proof'
+RULES = ('R09.a', 'R09.k', 'R09.e', 'R09.d', 'R09.t', 'R09.o', 'R02.d', 'R03.c')
 
 
 def run(prog, rec, tier):
